@@ -44,6 +44,9 @@ def bounded(pb, interp, rng, tier):
         # real-sampled VDIF: Hilbert conversion of rows 2*offset..2*offset+2n
         def f(off, n):
             z = pb.utils.real_to_complex(vraw[2 * off: 2 * off + 2 * n], axis=0)
+            # position-faithful: the quarter-rate mixer exp(-i pi k / 2) runs over the absolute raw index
+            # k = 2*off + j, not over the index j within the chunk that was read: a factor (-1)^off
+            z = z * (-1) ** (off % 2)
             if lsb is True:
                 z = z.conj()
             elif lsb is not False:
@@ -144,6 +147,15 @@ def bounded(pb, interp, rng, tier):
                 fail("BaseReader.dask_read", "lazy", f"{name} {rq}", type(zd.data).__name__)
             elif not np.array_equal(np.asarray(zd.data.compute()), ref[rq]) or zd.start_time != r.read(*rq).start_time:
                 fail("BaseReader.dask_read", "dask==eager", f"{name} {rq}", "differs")
+        # an empty read is a read: eager and lazy agree on it
+        ev += 1
+        try:
+            e0 = r.read(3, 0)
+            d0 = r.dask_read(3, 0)
+            if d0.shape != e0.shape or np.asarray(d0.data).shape != e0.shape:
+                fail("BaseReader.dask_read", "dask==eager.empty-read", f"{name} (3, 0)", f"{d0.shape} vs {e0.shape}")
+        except Exception as ex_:
+            fail("BaseReader.dask_read", "dask==eager.empty-read", f"{name} (3, 0)", f"{type(ex_).__name__}: {str(ex_)[:80]}")
         if additive:
             ev += 1
             q = max(1, min(30, length // 4))
